@@ -62,6 +62,7 @@ func vhSameRegisters(x, y *vBase, what string) {
 //vh:init cbor
 //vh:sched first
 //vh:param vals 1 2
+//vh:param rounds 1 2
 func VH_C08_CacheTransparent() {
 	vhSetThreshold(256)
 	nv := 1 + vhChoose("nvals", vhParam("vals", 1))
@@ -75,57 +76,72 @@ func VH_C08_CacheTransparent() {
 	cold := vhC08Build(vals, withChild, nblobs)
 	rootID := warm.a.SlabID()
 	vhAssert(cold.a.SlabID() == rootID, "same identifiers in both runs")
-	// cold run: a schedule of commit / drop cache / reopen
-	err := cold.st.FastCommit(1)
-	vhAssert(err == nil, "commit")
-	switch vhChoose("schedule", 3) {
-	case 0: // commit only (served from cache)
-	case 1:
-		cold.st.DropCache()
-	case 2:
-		cold.st = vhNewPersistentB(cold.base)
-	}
-	ca, err := NewArrayWithRootID(cold.st, rootID)
-	vhAssert(err == nil, "reopen from ledger")
-	if err != nil {
-		return
-	}
-	cold.a = ca
-	vhAssert(cold.a.Count() == warm.a.Count(), "same count after reload")
-	// the same operation on both
-	nv64 := vhU64("newval")
-	op := vhChoose("op", 4)
-	for _, r := range []*vhC08Run{warm, cold} {
-		switch op {
-		case 0:
-			vhAssert(r.a.Append(vU64(nv64)) == nil, "append")
+	// rounds of {schedule of commit / drop cache / reopen on the cold run; the same operation on both}
+	childPos := uint64(nv)
+	for round := 0; round < vhParam("rounds", 1); round++ {
+		err := cold.st.FastCommit(1)
+		vhAssert(err == nil, "commit")
+		switch vhChoose("schedule", 3) {
+		case 0: // commit only (served from cache)
 		case 1:
-			old, err := r.a.Set(0, vU64(nv64))
-			vhAssert(err == nil, "set")
-			if err == nil {
-				vhObserve("set-old-size", uint64(old.ByteSize()))
-			}
+			cold.st.DropCache()
 		case 2:
-			old, err := r.a.Remove(0)
-			vhAssert(err == nil, "remove")
-			if err == nil {
-				vhObserve("removed-size", uint64(old.ByteSize()))
+			cold.st = vhNewPersistentB(cold.base)
+		}
+		ca, err := NewArrayWithRootID(cold.st, rootID)
+		vhAssert(err == nil, "reopen from ledger")
+		if err != nil {
+			return
+		}
+		cold.a = ca
+		vhAssert(cold.a.Count() == warm.a.Count(), "same count after reload")
+		// the same operation on both
+		nv64 := vhU64("newval")
+		op := vhChoose("op", 4)
+		for _, r := range []*vhC08Run{warm, cold} {
+			switch op {
+			case 0:
+				vhAssert(r.a.Append(vU64(nv64)) == nil, "append")
+			case 1:
+				if r.a.Count() == 0 {
+					return
+				}
+				old, err := r.a.Set(0, vU64(nv64))
+				vhAssert(err == nil, "set")
+				if err == nil {
+					vhObserve("set-old-size", uint64(old.ByteSize()))
+				}
+			case 2:
+				if (childPos == 0 && withChild) || r.a.Count() == 0 {
+					return // keep the child; nothing to remove
+				}
+				old, err := r.a.Remove(0)
+				vhAssert(err == nil, "remove")
+				if err == nil {
+					vhObserve("removed-size", uint64(old.ByteSize()))
+				}
+			case 3: // mutate the nested child through the parent
+				if !withChild {
+					return
+				}
+				v, err := r.a.Get(childPos)
+				vhAssert(err == nil, "get child")
+				if err != nil {
+					return
+				}
+				c, ok := v.(*Array)
+				vhAssert(ok, "child is an array")
+				if !ok {
+					return
+				}
+				vhAssert(c.Append(vU64(nv64)) == nil, "child append")
 			}
-		case 3: // mutate the nested child through the parent
-			if !withChild {
-				return
-			}
-			v, err := r.a.Get(uint64(nv))
-			vhAssert(err == nil, "get child")
-			if err != nil {
-				return
-			}
-			c, ok := v.(*Array)
-			vhAssert(ok, "child is an array")
-			if !ok {
-				return
-			}
-			vhAssert(c.Append(vU64(nv64)) == nil, "child append")
+		}
+		if op == 2 {
+			childPos--
+		}
+		if op == 1 && childPos == 0 {
+			withChild = false // the child was overwritten
 		}
 	}
 	vhAssert(cold.a.Count() == warm.a.Count(), "same count after the operation")
